@@ -161,6 +161,23 @@ Theorem C03_rec10_inside : forall (v h a1 : pt) (b : R),
 Proof. exact rec10_inside_ok. Qed.
 Print Assumptions C03_rec10_inside.
 
+(* right elliptical cylinders against the solid described without facets:
+   v + t h + x a1 + y a2, 0 < t < 1, x^2 + y^2 < 1 *)
+Theorem C03_rec12_solid : forall v h a1 a2 : pt,
+  dot h a1 = 0 -> dot h a2 = 0 -> dot a1 a2 = 0 ->
+  h <> (0, 0, 0) -> a1 <> (0, 0, 0) -> a2 <> (0, 0, 0) ->
+  forall es, rec RS (pl v ++ pl h ++ pl a1 ++ pl a2) = Ok es -> forall p,
+    rec_inside v h a1 a2 p <-> all_negative es p.
+Proof. exact rec12_solid_ok. Qed.
+Print Assumptions C03_rec12_solid.
+
+Theorem C03_rec10_solid : forall (v h a1 : pt) (b : R),
+  dot h a1 = 0 -> cross h a1 <> (0, 0, 0) -> b <> 0 ->
+  forall es, rec RS (pl v ++ pl h ++ pl a1 ++ [b]) = Ok es -> forall p,
+    rec_inside v h a1 (rec10_minor h a1 b) p <-> all_negative es p.
+Proof. exact rec10_solid_ok. Qed.
+Print Assumptions C03_rec10_solid.
+
 (* ---------------- TRC ---------------- *)
 Theorem C03_trc_facet_k : forall (v h : pt) (r0 r1 : R),
   h <> (0, 0, 0) -> r0 <> r1 ->
@@ -176,6 +193,15 @@ Theorem C03_trc_inside : forall (v h : pt) (r0 r1 : R),
     (outside_of (trc_facets v h r0 r1) p <-> some_positive es p).
 Proof. exact trc_inside_ok. Qed.
 Print Assumptions C03_trc_inside.
+
+(* the frustum described without facets: v + t h + w, 0 < t < 1, w normal to
+   h, |w| below the radius that goes linearly from r0 to r1 *)
+Theorem C03_trc_solid : forall (v h : pt) (r0 r1 : R),
+  h <> (0, 0, 0) -> r0 <> r1 ->
+  forall es, trc RS (pl v ++ pl h ++ [r0; r1]) = Ok es -> forall p,
+    trc_inside v h r0 r1 p <-> all_negative es p.
+Proof. exact trc_solid_ok. Qed.
+Print Assumptions C03_trc_solid.
 
 (* ---------------- ELL ---------------- *)
 Theorem C03_ell_axis_facet_k : forall (c a : pt) (mb : R),
